@@ -23,6 +23,8 @@
       `_is_cyclic` (a DFS) is modelled *extensionally* by `forestB`: a multigraph is acyclic iff every
       non-empty sub-multiset of its edges has a vertex of degree exactly one (a leaf).  The DFS and
       this criterion are compared exhaustively by the correspondence; the theorems are about `Forest`.
+    * `qubitList`, `operandIndex`, `qubitNames` = `CQASMConverter._collect_qubit_list`,
+      `_operand_to_qubit_indices` (`list.index`), `_get_qubit_names`.
     * `labelCnots fixed`: `fixed = false` is the code as pinned (only CNOTs enter the interaction graph),
       `fixed = true` the repaired labelling (`fixes/C20-label-all-2q-gates.diff`): the qubit pairs of
       the other two-qubit gates (CZ, SWAP, …) are edges that are always present.
